@@ -306,7 +306,17 @@ pub const MAX_CHOICE_NESTING: usize = 10;
 pub fn case(bytes: &[u8]) -> Case {
     let mut src = Src::new(bytes);
     let default_derives = vec!["Debug".to_string(), "Clone".to_string()];
-    let derive_sets: [&[&str]; 5] = [&["Debug", "Clone"], &["Debug", "Clone", "PartialEq", "Eq"], &["Clone"], &[], &["Debug"]];
+    let derive_sets: [&[&str]; 8] = [
+        &["Debug", "Clone"],
+        &["Debug", "Clone", "PartialEq", "Eq"],
+        &["Clone"],
+        &[],
+        &["Debug"],
+        // names that are not identifiers: an error value is fine, a panic is not
+        &["Debug", "Clone", "serde::Serialize"],
+        &["1x", "Clone"],
+        &["Clone", ""],
+    ];
     match src.weighted(&[3, 4, 5, 6, 3, 1, 1, 3]) {
         0 => {
             let g = valid_model(&mut src);
@@ -317,7 +327,8 @@ pub fn case(bytes: &[u8]) -> Case {
             let (text, _) = printer::print_with(&g, &mut src, true);
             let ds = derive_sets[src.pick(derive_sets.len())];
             let has_memo = g.normals().any(|n| n.memoize() || n.leftrec());
-            let expect = if ds.contains(&"Clone") || !has_memo { Expect::Code } else { Expect::Any };
+            let valid_names = ds.iter().all(|d| !d.is_empty() && d.chars().all(|c| c.is_ascii_alphanumeric() || c == '_') && !d.chars().next().unwrap().is_ascii_digit());
+            let expect = if valid_names && (ds.contains(&"Clone") || !has_memo) { Expect::Code } else { Expect::Any };
             Case { class: Class::ValidLayout, sub: format!("{:?}", ds), text, derives: ds.iter().map(|s| s.to_string()).collect(), expect }
         }
         2 => {
